@@ -119,9 +119,9 @@ Qed.
 (* ------------------------------------------------------------------------------------------------ *)
 (** * The while loop *)
 
-Lemma Inv_init : forall O, sortedz (gens_of O) -> (forall x, In x O -> wfb (km_of x)) -> Inv O O [].
+Lemma Inv_init : forall O, sortedz (gens_of O) -> Inv O O [].
 Proof.
-  intros O Hs Hwf. constructor; [exact Hs | exact Hwf |].
+  intros O Hs. constructor; [exact Hs |].
   intros k e Hl. exists e. split; [exact Hl | split; [split; [reflexivity | apply subset_refl] |]].
   exists (km_of e). split; [left; reflexivity | apply (lookup_In O k e Hl)].
 Qed.
@@ -174,8 +174,7 @@ Qed.
 
 (* the domain of the property for ordered covering *)
 Definition oc_domain (t : table) : Prop :=
-  (forall x, In x t -> wfb (km_of x))            (* no key bit outside its mask *)
-  /\ nonempty_sources t                           (* every entry has a source direction *)
+  nonempty_sources t                              (* every entry has a source direction *)
   /\ (sortedz (gens_of t) \/ pairwise_disjoint t). (* increasing generality, or orthogonal *)
 
 Lemma ordered_covering_no_raise : forall t target,
@@ -198,9 +197,8 @@ Theorem ordered_covering_route_eq : forall t target,
   exists T A, ordered_covering t target [] true = Ok (T, A)
               /\ route_eq_matched t T /\ len T <= len t.
 Proof.
-  intros t target [Hwf [Hne Hord]]. rewrite ordered_covering_no_raise.
-  assert (HInv0 : Inv (sort_by_gen t) (sort_by_gen t) []).
-  { apply Inv_init; [apply sort_sorted |]. intros x Hx. apply Hwf. apply In_sort. exact Hx. }
+  intros t target [Hne Hord]. rewrite ordered_covering_no_raise.
+  assert (HInv0 : Inv (sort_by_gen t) (sort_by_gen t) []) by (apply Inv_init; apply sort_sorted).
   destruct (oc_loop_spec (S (length t)) _ _ _ target HInv0) as [T [A [Hl [HInv Hlen]]]].
   { rewrite sort_length. lia. }
   exists T, A. split; [exact Hl | split].
@@ -211,7 +209,7 @@ Qed.
 
 Theorem oc_minimise_method_ok : forall t, oc_domain t -> method_ok oc_minimise t.
 Proof.
-  intros t Hdom. pose proof Hdom as [Hwf [Hne Hord]].
+  intros t Hdom. pose proof Hdom as [Hne Hord].
   destruct (ordered_covering_route_eq t None Hdom) as [T0 [A0 [Hoc0 [Hre0 Hlen0]]]].
   destruct (remove_default_spec T0 None) as [full [Hrd0 [Hrdre [Hrdlen _]]]].
   exists full. unfold oc_minimise at 1. rewrite Hoc0. cbn [bind fst].
@@ -240,7 +238,7 @@ Proof.
   induction t as [| x r IH]; intros H; simpl; [exact I |]. split.
   - intros y Hy. apply in_map_iff in Hy. destruct Hy as [b [<- Hb]].
     apply In_nth_error in Hb. destruct Hb as [j Hj].
-    apply (H 0%nat (S j) x b); [lia | reflexivity | exact Hj].
+    rewrite !gen_of_spec. apply (H 0%nat (S j) x b); [lia | reflexivity | exact Hj].
   - apply IH. intros i j a b Hij Ha Hb. apply (H (S i) (S j) a b); [lia | exact Ha | exact Hb].
 Qed.
 
@@ -253,7 +251,7 @@ Proof.
   rewrite (nth_indep _ 0 (gen_of a)) in H by (rewrite map_length; lia).
   rewrite (nth_indep _ 0 (gen_of a) (n:=j)) in H by (rewrite map_length; lia).
   rewrite !map_nth in H.
-  rewrite (nth_error_nth t i a Ha), (nth_error_nth t j a Hb) in H. exact H.
+  rewrite (nth_error_nth t i a Ha), (nth_error_nth t j a Hb) in H. rewrite <- !gen_of_spec. exact H.
 Qed.
 
 Lemma matches_low32 : forall e k, 0 <= e_mask e <= 4294967295 ->
@@ -271,7 +269,7 @@ Proof.
   change 4294967296 with (2 ^ 32). apply Z.mod_pos_bound. lia.
 Qed.
 
-Lemma orthogonal_pairwise_disjoint : forall t, table32 t -> orthogonal t -> pairwise_disjoint t.
+Lemma orthogonal_pairwise_disjoint_loose : forall t, masks32 t -> orthogonal t -> pairwise_disjoint t.
 Proof.
   induction t as [| x r IH]; intros H32 Ho; simpl; [exact I |]. split.
   - intros d k Hd Hm. apply In_nth_error in Hd. destruct Hd as [j Hj].
@@ -285,13 +283,42 @@ Proof.
     + intros i j a b k Hij Ha Hb Hk Hm. apply (Ho (S i) (S j) a b k); [lia | exact Ha | exact Hb | exact Hk | exact Hm].
 Qed.
 
-Lemma minimiser_domain_oc_domain : forall t, minimiser_domain t -> oc_domain t.
+Lemma table32_masks32 : forall t, table32 t -> masks32 t.
+Proof. intros t H e He. apply (H e He). Qed.
+
+Lemma orthogonal_pairwise_disjoint : forall t, table32 t -> orthogonal t -> pairwise_disjoint t.
+Proof. intros t H32 Ho. apply orthogonal_pairwise_disjoint_loose; [apply table32_masks32; exact H32 | exact Ho]. Qed.
+
+Lemma minimiser_domain_loose_of : forall t, minimiser_domain t -> minimiser_domain_loose t.
 Proof.
-  intros t [H32 [Hne Hord]]. split; [| split; [exact Hne |]].
-  - intros x Hx. apply wf_km_wfb. unfold wf_km, km_of. cbn [fst snd]. apply Z.eqb_eq. apply (H32 x Hx).
-  - destruct Hord as [Hs | Ho]; [left; apply sorted_by_generality_sortedz; exact Hs |].
-    right. apply orthogonal_pairwise_disjoint; assumption.
+  intros t [H32 [Hne Hord]]. split; [exact Hne |].
+  destruct Hord as [Hs | Ho]; [left; exact Hs | right; split; [apply table32_masks32; exact H32 | exact Ho]].
 Qed.
+
+Lemma minimiser_domain_loose_oc_domain : forall t, minimiser_domain_loose t -> oc_domain t.
+Proof.
+  intros t [Hne Hord]. split; [exact Hne |].
+  destruct Hord as [Hs | [Hm Ho]]; [left; apply sorted_by_generality_sortedz; exact Hs |].
+  right. apply orthogonal_pairwise_disjoint_loose; assumption.
+Qed.
+
+Lemma minimiser_domain_oc_domain : forall t, minimiser_domain t -> oc_domain t.
+Proof. intros t H. apply minimiser_domain_loose_oc_domain. apply minimiser_domain_loose_of. exact H. Qed.
+
+(* U: the key-range and stray-key-bit clauses of the domain are not needed *)
+Theorem oc_minimise_loose_spec : forall t, minimiser_domain_loose t -> method_ok oc_minimise t.
+Proof. intros t H. apply oc_minimise_method_ok. apply minimiser_domain_loose_oc_domain. exact H. Qed.
+
+Theorem minimise_table_loose_spec : forall t target,
+  minimiser_domain_loose t ->
+  match minimise_table t target with
+  | Ok r => route_eq t r /\ len r <= len t /\ (forall tl, target = Some tl -> len r <= tl)
+  | Failed n =>
+      exists tl, target = Some tl /\ tl < n /\
+                 n = Z.min (Z.min (len t) (full_size remove_default t)) (full_size oc_minimise t)
+  | OtherError | OutOfFuel => False
+  end.
+Proof. intros t target H. apply minimise_table_spec. apply oc_minimise_loose_spec. exact H. Qed.
 
 Theorem ordered_covering_stage_spec : forall t target,
   minimiser_domain t ->
